@@ -823,15 +823,35 @@ func checkAndPropagateArgsForUnionWithReturnT(
 		// methodTs point into the shared method table: accumulate on copies
 		currentT := methodTs[idx].DeepCopy()
 
-		// a declared return type Self means this member of the union receiver
-		if currentT.GetType() == base.SELF {
-			for _, variantT := range m.evaluatedObjectT.GetVariants() {
-				if variantT.GetObjectClass() == class {
-					currentT = variantT.DeepCopy()
+		// a declared return type Self, alone or as member of a union, means
+		// this member of the union receiver
+		var memberT *base.T
 
-					break
+		for _, variantT := range m.evaluatedObjectT.GetVariants() {
+			if variantT.GetObjectClass() == class {
+				memberT = variantT.DeepCopy()
+
+				break
+			}
+		}
+
+		switch {
+		case memberT == nil:
+			// nop
+
+		case currentT.GetType() == base.SELF:
+			currentT = memberT
+
+		case currentT.IsUnionType():
+			variants := currentT.GetVariants()
+
+			for i := range variants {
+				if variants[i].GetType() == base.SELF {
+					variants[i] = *memberT.DeepCopy()
 				}
 			}
+
+			currentT = base.MakeUnion(variants)
 		}
 
 		if returnT == nil {
